@@ -777,7 +777,9 @@ func c14BlacklistReadd(c *fw.Ctx) {
 		c.Inconclusive("playlist not served before the blacklist test")
 		return
 	}
-	c.Describe("blacklist 127.0.0.1 for 1 s, then again for 6 s")
+	c.Describe("blacklist 127.0.0.1 for 1 s, then again for 6 s; another address for 1 s")
+	// an unrelated address whose entry expires while ours is still listed: its expiry must not touch ours
+	srv.HttpPostJson(s.ApiAddr(), "/api/ctrl/add_ip_blacklist", `{"ip":"10.254.1.2","duration_sec":1}`, 3*time.Second)
 	srv.HttpPostJson(s.ApiAddr(), "/api/ctrl/add_ip_blacklist", `{"ip":"127.0.0.1","duration_sec":1}`, 3*time.Second)
 	t0 := time.Now()
 	srv.HttpPostJson(s.ApiAddr(), "/api/ctrl/add_ip_blacklist", `{"ip":"127.0.0.1","duration_sec":6}`, 3*time.Second)
